@@ -4,6 +4,7 @@ package erpc
 
 import (
 	"context"
+	"net"
 	"time"
 )
 
@@ -13,6 +14,47 @@ func init() {
 	vxRegister("VX_C08_CloseDuringLaunch", VX_C08_CloseDuringLaunch)
 	vxRegister("VX_C10_RewrittenName", VX_C10_RewrittenName)
 	vxRegister("VX_C15_StatusThroughPreSession", VX_C15_StatusThroughPreSession)
+	vxRegister("VX_C07_LostWhileEstablishing", VX_C07_LostWhileEstablishing)
+}
+
+// VX_C07_LostWhileEstablishing: the remote end is already gone (or sends one
+// frame and goes) when the connection is being established: ServeConn (variant
+// 0) or Dial (variant 1) start the session's reader, which sees the end of the
+// input at once. For every schedule with <= k pre-emptions of reader and
+// establishing goroutine: once things have settled the session is unhealthy,
+// its close notification has fired, the disconnect hook ran exactly once and
+// the index does not contain it. args: variant, preemptions
+func VX_C07_LostWhileEstablishing(args []int) {
+	var log []string
+	pl := newVxPlugin("rec", &log)
+	p := vxNewPeer(pl)
+	conn := newVxConn("srv:1", "cli:2")
+	conn.end()
+	var s Session
+	var st *Status
+	vxSched(1, args[1])
+	if args[0] == 0 {
+		s, st = p.ServeConn(conn)
+	} else {
+		VXSetDialHook(func(addr string) (net.Conn, error) { return conn, nil })
+		defer VXSetDialHook(nil)
+		s, st = p.Dial("srv:1")
+	}
+	vxWaitIdle()
+	vxSched(0, 0)
+	vxAssume(st.OK())
+	vxWaitIdle()
+	vxAssert(!s.Health(), "a session whose connection was lost at once is unhealthy")
+	select {
+	case <-s.CloseNotify():
+	default:
+		vxFail("close notification fired")
+	}
+	vxAssert(p.CountSession() == 0, "a session whose connection was lost while it was being established is not left in the index")
+	_, listed := p.GetSession(s.ID())
+	vxAssert(!listed, "and cannot be looked up")
+	vxAssert(vxCount(log, "rec:PostDisconnect") == 1, "the disconnect hook ran exactly once")
+	vxCover("c07.lost-while-establishing")
 }
 
 // vxPreStatus is an accept hook that reports a status to the connecting side
